@@ -1223,8 +1223,8 @@ def classify(fail: dict, case: dict, pred: dict | None, files: dict[str, str]) -
     if base["input_kind"] == "file_tree":
         from . import c12_trees
 
-        # two raw names of the tree on one output name: everything at or below that name is one merged package
-        if c12_trees.below_clash(pred, importer, fail.get("target")):
+        # two raw names of the tree on one output name: the module of that name is shadowed, or merged with another one
+        if c12_trees.at_clash(pred, importer, fail.get("target")):
             return {**base, "mechanism": "stem_and_directory_fall_on_one_name"}
     # a body copied over an __init__ by __postprocess_result_modules (the importing file itself, or the
     # package file the import designates)?
@@ -1451,6 +1451,22 @@ def relative_key_collisions(case: dict, pred: dict | None = None) -> set[tuple]:
     return out
 
 
+def exact_key_shared(case: dict, pred: dict | None, importer: tuple) -> bool:
+    """Trigger of the recorded finding C12-exact-key-shared, stated on the input and the class names as written:
+    under --use-exact-imports a module that uses (as member types) TWO OR MORE classes of one foreign module T and a
+    class of another foreign module U whose name is the name of one of those. The scoped resolver hands out the
+    import names under the key `relative()` gives — the pair (from, module), taken BEFORE exact_import turns it into
+    (from.module, Class) — so all classes of T share one key: the second class re-names the key's entry and frees
+    the first class's name, which the import from U then takes un-aliased."""
+    if pred is None or not case["opts"].get("use_exact_imports"):
+        return False
+    uses: dict[tuple, set] = {}
+    for e in pred["preds"].get(tuple(importer), []):
+        if not e["base"]:
+            uses.setdefault(tuple(e["ref"]), set()).add(e["cls"])
+    return any(len(a) >= 2 and any(u != t and (b & a) for u, b in uses.items()) for t, a in uses.items())
+
+
 def flush_imports(ck: Check, camp, pending: list) -> None:
     """oracles (4) and (5) for all queued packages in one fresh interpreter"""
     if not pending:
@@ -1501,6 +1517,8 @@ def flush_imports(ck: Check, camp, pending: list) -> None:
                 inherited.append("relative_key_collision")
             if copied_init_involved(case, pred, files, strip(m), items[0]):
                 inherited.append("init_body_copied")
+            if exact_key_shared(case, pred, strip(m)):
+                inherited.append("exact_import_key_shared")
             mech = inherited[0] if inherited else "wrong_class_reached"
             camp.hit(f"reach_failed:{mech}")
             ck.fail({"oracle": "use_reaches_target", "input_kind": kind, "mechanism": mech}, case,
@@ -1772,7 +1790,9 @@ def run(ck: Check) -> None:
     ck.prove()
     ck.assumptions += [
         "Python's relative-import rule is modelled by Dcg/Py/Import.lean (validated in this run against importlib.util.resolve_name and real imports)",
-        "module paths of dotted definition names consist of identifiers (FieldNameResolver.get_valid_name, property C07); directory names of input trees are outside the file-map model (oracle only)",
+        "module paths of dotted definition names consist of identifiers (FieldNameResolver.get_valid_name, property C07); module paths of input file trees carry RAW directory names and sanitised stems (Model/Modules.getModulePath, Model/ModulesNorm.resultsFinal); trees with a '.' in a directory name, or in a stem under --treat-dot-as-module, are outside the file-map model (oracle only, counted as unmodelled)",
+        "renaming inside a module: WHICH class is renamed and to WHAT is taken from the real run (the scoped resolver, property C06); the model states what a rename does to the name, the class name and the module path (setClassName), for every choice",
+        "models of an input tree are told apart by a member of their own (m<k>): which file holds which model is read from the written text, line by line, also for files that do not parse",
         "the order of module paths is the one Python's sorted(key=(len, path), reverse=True) yields (the harness sorts; the theorems only use deepest-first)",
         "the condition of the package-file extra dot is modelled on name lists (importer path is a prefix of the importee path); the code tests it on dotted strings with a trailing '.', which is the same for names without dots",
         "names of imports: the scoped resolver is modelled for the calls __change_from_import makes (add(path, name) with default flags; Model/Modules.Scope.add, compared with a real ModelResolver and with the recorded calls of every generated module); get_valid_field_name is a parameter of the theorem (identity on the class names met); the `module.Class` spelling of each use and the later passes (__collapse_root_models, __change_imported_model_name) are checked by oracle (5) only",
